@@ -846,9 +846,13 @@ func (w *Worker) dsaSign(a []Value) Value {
 	r := w.tc.Extract(sig, 319, 160)
 	s := w.tc.Extract(sig, 159, 0)
 	w.dsaSigs = append(w.dsaSigs, dsaSigRec{pt, hd, r, s})
-	// completeness: the signature verifies
+	// completeness: the signature verifies, and 0 < r,s < Q as for every real signature
 	ver := w.tc.UF(fmt.Sprintf("dsaverify_n%d", len(h)), 0, append(append([]*Term{}, pt...), hd, r, s)...)
 	w.assertSilently(ver)
+	if Q.C != nil && Q.C.BitLen() <= 160 && Q.C.Sign() > 0 {
+		qt := w.tc.ConstBig(160, Q.C)
+		w.assertSilently(w.tc.And(w.tc.Cmp(OpUlt, r, qt), w.tc.Cmp(OpUlt, s, qt), w.tc.Not(w.tc.Eq(r, w.tc.Const(160, 0))), w.tc.Not(w.tc.Eq(s, w.tc.Const(160, 0)))))
+	}
 	return Tuple{w.newBig(BigVal{T: w.tc.Zext(r, 161)}), w.newBig(BigVal{T: w.tc.Zext(s, 161)}), Iface{}}
 }
 
